@@ -119,6 +119,13 @@ func IsFallback(kind string) bool {
 }
 
 func timeText(text string, t time.Time) (bool, string) {
+	if y := t.Year(); y < 0 || y > 9999 {
+		// RFC 3339 cannot carry such a year, so the text cannot be parsed back: compare with the reference rendering
+		if text == t.Format(time.RFC3339Nano) {
+			return true, ""
+		}
+		return false, fmt.Sprintf("time text %q is not %s", text, t.Format(time.RFC3339Nano))
+	}
 	p, err := time.Parse(time.RFC3339Nano, text)
 	if err != nil {
 		return false, fmt.Sprintf("time text %q does not parse (RFC3339Nano): %v", text, err)
